@@ -839,6 +839,9 @@ module Sy = struct
           | "update", _ -> Some SUpdate
           | "setgroup", [g; p] -> Some (SSetGroup (nat_of_int (int_of_string g), Mg.z_of_int (int_of_string p)))
           | "teardown", _ -> Some STeardown
+          | "pause", [n] -> Some (SPause (nat_of_int (int_of_string n)))
+          | "resume", [n] -> Some (SResume (nat_of_int (int_of_string n)))
+          | "stop", [n] -> Some (SStop (nat_of_int (int_of_string n)))
           | _ -> None) in
         (match o with
          | None -> print_endline "R unknown-op"
